@@ -293,11 +293,13 @@ class ApiMergeStoreHandler(NbdimeHandler, APIHandler):
         # Somehow store unsolved conflicts?
         # conflicts = body['conflicts']
 
-        # Serialize before opening the file, so that a body that is not a
-        # notebook cannot truncate an existing output file:
+        # Serialize and encode before opening the file, so that a body that
+        # is not a notebook (or that cannot be encoded, e.g. a lone surrogate)
+        # cannot truncate an existing output file:
         merged_text = nbformat.writes(merged_nb)
         if not merged_text.endswith('\n'):
             merged_text += '\n'
+        merged_text.encode('utf8')
         with io.open(path, 'w', encoding='utf8') as f:
             f.write(merged_text)
         self.finish()
